@@ -767,6 +767,10 @@ class Event:
         return "Event(%s, %s, %s)" % (self.name, [show(a) for a in self.args], {k: show(v) for k, v in self.kwargs.items()})
 
 
+# library roots a specification may name although the module it is read in does not import them (any more)
+STD_ROOTS = {"pickle": "pickle", "gzip": "gzip", "itertools": "itertools", "functools": "functools", "collections": "collections", "operator": "operator",
+             "os": "os", "json": "json", "tarfile": "tarfile", "tempfile": "tempfile", "copy": "copy", "pd": "pandas", "pandas": "pandas", "nx": "networkx",
+             "networkx": "networkx", "rx": "rustworkx", "rustworkx": "rustworkx", "numpy": "numpy"}
 WELL_KNOWN = {
     "defaultdict": "collections.defaultdict", "OrderedDict": "collections.OrderedDict", "Counter": "collections.Counter", "deque": "collections.deque",
     "chain": "itertools.chain", "repeat": "itertools.repeat", "islice": "itertools.islice", "count": "itertools.count", "accumulate": "itertools.accumulate",
@@ -1582,6 +1586,13 @@ class Frame:
             parts = [bound(e.slice.lower), bound(e.slice.upper), bound(e.slice.step)]
             if all(ok for ok, _ in parts) and parts[2][1] != 0:
                 return (AList if isinstance(base, AList) else ATuple)(list(base.items[slice(parts[0][1], parts[1][1], parts[2][1])]))
+        if isinstance(base, Poly) and isinstance(idx, Poly) and idx.is_const() and idx.const_value().denominator == 1:
+            ba0 = base.as_atom()
+            if ba0 is not None and ba0[0] == "val" and isinstance(ba0[1], tuple) and ba0[1] and ba0[1][0] == "tuple":
+                n0 = len(ba0[1]) - 1
+                c0 = int(idx.const_value())
+                if -n0 <= c0 < n0:
+                    return _value_of_key(ba0[1][1 + (c0 % n0)])  # a constant position of a concrete tuple
         if isinstance(base, AList) and base.items and isinstance(idx, Poly) and not idx.is_const() and all(isinstance(x, ARecord) and x.names == base.items[0].names for x in base.items):
             # records[i] for a computed i: the record of the i-th value of every field
             cols = [AList([x.items[j] for x in base.items], list(base.doms)) for j in range(len(base.items[0].names))]
@@ -1736,7 +1747,7 @@ class Frame:
             return self.call_named(f.id, f.id, args, kwargs, st, e)
         if dotted and dotted.split(".")[0] not in st.env and not (dotted.split(".")[0] in ("self", "cls")):
             root = dotted.split(".")[0]
-            if root in self.module.imports or root in ("np", "math"):
+            if root in self.module.imports or root in ("np", "math") or root in STD_ROOTS:
                 return self.call_named(dotted, dotted, args, kwargs, st, e)
             # ClassName.method(...)
             ci = self.I.prog.resolve_class(root, self.module)
@@ -1793,6 +1804,8 @@ class Frame:
         tgt = self.module.imports.get(root)
         if tgt and root != tgt:
             full = tgt + dotted[len(root):]
+        elif not tgt and root in STD_ROOTS and STD_ROOTS[root] != root:
+            full = STD_ROOTS[root] + dotted[len(root):]  # the conventional alias of a library a module does not import (specifications)
         elif not tgt and dotted in WELL_KNOWN and self.I.prog.resolve_function(dotted, self.module) is None:
             # a specification (or a module that no longer imports it) naming a standard-library helper by its bare name
             full = WELL_KNOWN[dotted]
@@ -1893,6 +1906,12 @@ class Frame:
             return AList(list(reversed(args[0].items)))
         if dotted == "dict" and len(args) == 1 and not kwargs and isinstance(args[0], Poly) and args[0].as_atom() is not None and args[0].as_atom()[0] in ("attr", "v", "sub"):
             return args[0]  # a copy of a mapping: value semantics
+        if dotted == "enumerate" and len(args) == 1 and not kwargs and isinstance(args[0], AList) and args[0].items and len(args[0].doms) == 1 and "enumerate" not in st.env \
+                and not any(_maybe_absent(x) or (isinstance(x, Poly) and x.as_atom() is not None and x.as_atom()[0] == "star") for x in args[0].items):
+            # a list with one entry per element of D (a comprehension / an append loop without a filter): position i of
+            # the list is position i of D
+            d = args[0].doms[0]
+            return AList([ATuple([Poly.atom(("idx", d, i)), x]) for i, x in enumerate(args[0].items)], list(args[0].doms))
         if dotted in ("zip", "enumerate"):
             return Poly.atom(("call", dotted, tuple(vkey(a) for a in args), tuple(sorted((k, vkey(v)) for k, v in kwargs.items()))))
         if dotted == "float" and len(args) == 1 and isinstance(args[0], str):
